@@ -471,6 +471,7 @@ fn same_buckets(a: &[(i64, u64, Vec<CR>)], b: &[(i64, u64, Vec<CR>)]) -> Result<
 pub fn empty_counts_lean(nodes: &[Node]) -> String {
     fn one(n: &Node) -> String {
         match &n.agg {
+            Agg::Metric { kind: MK::TopHits, .. } => "H[]".into(),
             Agg::Metric { .. } => "N".into(),
             Agg::Terms { .. } => "T[0,0;]".into(),
             Agg::Hist { .. } => "L[]".into(),
@@ -497,6 +498,7 @@ pub fn cr_counts_lean(nodes: &[Node], crs: &[CR], ranks: &Ranks) -> String {
             CR::List(b) if b.is_empty() && matches!(n.agg, Agg::Range { .. }) => empty_counts_lean(std::slice::from_ref(n)),
             CR::List(b) => format!("L[{}]", buckets(n, b, ranks)),
             CR::Filter(c, s) => format!("F[{c}:{}]", cr_counts_lean(&n.subs, s, ranks)),
+            CR::Hits(vs) => format!("H[{}]", vs.iter().map(|v| format!("{v}:{v}")).collect::<Vec<_>>().join(";")),
             _ => "N".into(),
         }
     }
